@@ -47,7 +47,6 @@ func detRule(p *Prog, r *Rule, pkgs ...string) {
 	}
 }
 
-
 // ---- scenario helpers ------------------------------------------------------------------
 
 var stdMembers = []string{"debian-binary", "control.tar.gz", "data.tar.xz"}
@@ -206,7 +205,10 @@ func checkC14(p *Prog, rp *Report) {
 			}
 			// constructor failure
 			if exts[ce] != "" && exts[ce] != "bzip2" && exts[ce] != "lzma" && undec == "" {
-				sc := with(func(sc *debScenario) { sc.members = []string{"debian-binary", "control.tar" + ce, "data.tar"}; sc.ctorErr = exts[ce] })
+				sc := with(func(sc *debScenario) {
+					sc.members = []string{"debian-binary", "control.tar" + ce, "data.tar"}
+					sc.ctorErr = exts[ce]
+				})
 				outs, why := runLoadDeb(p, sc)
 				if why != "" {
 					undec = why
